@@ -607,6 +607,219 @@ let predict_set (f : string list) (obs : string) : string * string * bool =
       (pred, v, true)
   | _ -> ("unknown-case", "BAD:unknown-case", false)
 
+
+(* ---------- ovl cases: config structs with map / slice / nested-struct fields (Model/RegistryOverlay.v) ---------- *)
+type tr = TNull | TNum of int | TMap of (string * tr) list | TSub of (string * tr) list | TList of tr list
+
+let intern_tbl : (string, int) Hashtbl.t = Hashtbl.create 64
+let intern_names : (int, string) Hashtbl.t = Hashtbl.create 64
+let intern (s : string) : n =
+  match Hashtbl.find_opt intern_tbl s with
+  | Some i -> n_of_int i
+  | None -> let i = Hashtbl.length intern_tbl in Hashtbl.add intern_tbl s i; Hashtbl.add intern_names i s; n_of_int i
+let name_of (k : n) : string = match Hashtbl.find_opt intern_names (int_of_n k) with Some s -> s | None -> "?"
+
+let split_top (sep : char) (s : string) : string list =
+  let out = ref [] and depth = ref 0 and start = ref 0 in
+  String.iteri (fun i c ->
+    match c with
+    | '{' | '[' | '(' -> incr depth
+    | '}' | ']' | ')' -> decr depth
+    | c when c = sep && !depth = 0 -> out := String.sub s !start (i - !start) :: !out; start := i + 1
+    | _ -> ()) s;
+  List.rev (String.sub s !start (String.length s - !start) :: !out)
+
+let rec p_tree (s : string) : tr =
+  let len = String.length s in
+  if s = "~" then TNull
+  else if len = 0 then raise (Unparsable "empty value")
+  else if (s.[0] = '{' && s.[len - 1] = '}') || (s.[0] = '(' && s.[len - 1] = ')') then begin
+    let inner = String.sub s 1 (len - 2) in
+    let kvs = if inner = "" then [] else List.map p_kv (String.split_on_char ';' inner) in
+    if s.[0] = '{' then TMap kvs else TSub kvs
+  end
+  else if s.[0] = '[' && s.[len - 1] = ']' then begin
+    let inner = String.sub s 1 (len - 2) in
+    TList (if inner = "" then [] else List.map p_tree (String.split_on_char ';' inner))
+  end
+  else match int_of_string_opt s with Some i when i >= 0 -> TNum i | _ -> raise (Unparsable ("value " ^ s))
+and p_kv (kv : string) : string * tr =
+  match String.index_opt kv '=' with
+  | Some i when i > 0 -> (String.sub kv 0 i, p_tree (String.sub kv (i + 1) (String.length kv - i - 1)))
+  | _ -> raise (Unparsable ("key=value " ^ kv))
+let p_fields (s : string) : (string * tr) list = if s = "-" then [] else List.map p_kv (split_top ',' s)
+
+let t_num = function TNum i -> i | _ -> raise (Unparsable "number expected")
+(* the default of invocation number n (every number + 1000 n), or the zero value of the struct *)
+let fval_of (zero : bool) (bump : int) (t : tr) : fval =
+  let nn i = n_of_int (if zero then 0 else i + bump) in
+  match t with
+  | TNum i -> FNum (nn i)
+  | TMap kv -> FMap (if zero then [] else List.map (fun (k, v) -> (intern k, nn (t_num v))) kv)
+  | TList l -> FList (if zero then [] else List.map (fun v -> nn (t_num v)) l)
+  | TSub kv -> FSub (List.map (fun (k, v) -> (intern k, nn (t_num v))) kv)
+  | TNull -> raise (Unparsable "nil in a config")
+let uval_of (t : tr) : uval =
+  match t with
+  | TNull -> UNull
+  | TNum i -> UNum (n_of_int i)
+  | TMap kv -> UMap (List.map (fun (k, v) -> (intern k, (match v with TNull -> None | v -> Some (n_of_int (t_num v))))) kv)
+  | TList l -> UList (List.map (fun v -> n_of_int (t_num v)) l)
+  | TSub _ -> raise (Unparsable "struct in a section")
+let s_amap (sorted : bool) (m : (n * n) list) : string =
+  let l = List.map (fun (k, v) -> (name_of k, string_of_n v)) m in
+  let l = if sorted then List.sort compare l else l in
+  String.concat ";" (List.map (fun (k, v) -> k ^ "=" ^ v) l)
+let s_fval = function
+  | FNum x -> string_of_n x
+  | FMap m -> "{" ^ s_amap true m ^ "}"
+  | FList l -> "[" ^ String.concat ";" (List.map string_of_n l) ^ "]"
+  | FSub m -> "(" ^ s_amap false m ^ ")"
+let s_cfg (c : (n * fval) list) : string = String.concat "," (List.map (fun (k, v) -> name_of k ^ "=" ^ s_fval v) c)
+let p_cfg (s : string) : (n * fval) list = List.map (fun (k, t) -> (intern k, fval_of false 0 t)) (p_fields s)
+
+type oev = ODef of int | OCtor of int * string | OProd of int
+type oout = OutOk of string | OutFac | OutErr | OutPanic
+let p_oev (s : string) : oev =
+  let num t = match int_of_string_opt t with Some i -> i | None -> raise (Unparsable ("event " ^ s)) in
+  if String.length s < 2 then raise (Unparsable ("event " ^ s))
+  else match s.[0] with
+    | 'D' -> ODef (num (after s 1))
+    | 'P' -> OProd (num (after s 1))
+    | 'C' -> (match String.index_opt s ':' with
+              | Some i -> OCtor (num (String.sub s 1 (i - 1)), after s (i + 1))
+              | None -> raise (Unparsable ("event " ^ s)))
+    | _ -> raise (Unparsable ("event " ^ s))
+let p_oround (s : string) : oev list * oout =
+  match split_on_str " => " s with
+  | [evs; out] ->
+      ((if evs = "." then [] else List.map p_oev (String.split_on_char ' ' evs)),
+       (if out = "ok" then OutFac else if out = "err" then OutErr else if out = "panic" then OutPanic
+        else if String.length out > 3 && String.sub out 0 3 = "ok:" then OutOk (after out 3)
+        else raise (Unparsable ("outcome " ^ out))))
+  | _ -> raise (Unparsable ("round " ^ s))
+(* (is a factory observation, creation round, product rounds) *)
+let p_oobs (s : string) : bool * (oev list * oout) option * (oev list * oout) list =
+  match split_on_str " | " s with
+  | "new" :: rounds -> (false, None, List.map p_oround rounds)
+  | first :: rounds when String.length first > 4 && String.sub first 0 4 = "fac " ->
+      (true, Some (p_oround (after first 4)), List.map p_oround rounds)
+  | _ -> raise (Unparsable "observation")
+
+let s_oround (evs, out) = (if evs = [] then "." else String.concat " " evs) ^ " => " ^ out
+
+let predict_ovl (f : string list) (obs : string) : string * string * bool =
+  match f with
+  | ["ovl"; ret; _cfg; def; req; k; dflt_s; sec_s] ->
+      let has_def = (def = "V") in
+      let dtree = p_fields dflt_s in
+      let dflt n = List.map (fun (k, t) -> (intern k, fval_of (not has_def) (1000 * n) t)) dtree in
+      let sec = List.map (fun (k, t) -> (intern k, uval_of t)) (p_fields sec_s) in
+      let kk = int_of_string k in
+      let accepted = ovl_accepted_b (dflt 0) sec in
+      let d i = if has_def then ["D" ^ string_of_int i] else [] in
+      let e i = dec_cfg (dflt i) sec in
+      let idx = List.init kk (fun i -> i) in
+      (* the model's prediction: the registry's rounds (C18_new_config / C18_plugin_factory_config /
+         C18_factory_factory_config) with the decoder of Model/RegistryOverlay.v as the fill *)
+      let pred =
+        if req = "N" then
+          "new" ^ String.concat "" (List.map (fun i ->
+            " | " ^ (match e i with
+                     | Some c -> s_oround (d i @ ["C" ^ string_of_int i ^ ":" ^ s_cfg c] @ (if ret = "F" then ["P" ^ string_of_int i] else []), "ok:" ^ s_cfg c)
+                     | None -> s_oround (d i, "err"))) idx)
+        else if ret = "P" then
+          (match e 0 with
+           | None -> "fac " ^ s_oround (d 0, "err")
+           | Some _ ->
+               "fac " ^ s_oround (d 0, "ok") ^ String.concat "" (List.map (fun i ->
+                 " | " ^ (match e (i + 1) with
+                          | Some c -> s_oround (d (i + 1) @ ["C" ^ string_of_int i ^ ":" ^ s_cfg c], "ok:" ^ s_cfg c)
+                          | None -> s_oround (d (i + 1), if req = "F0" then "panic" else "err"))) idx))
+        else
+          (match e 0 with
+           | None -> "fac " ^ s_oround (d 0, "err")
+           | Some c ->
+               "fac " ^ s_oround (d 0 @ ["C0:" ^ s_cfg c], "ok") ^ String.concat "" (List.map (fun i ->
+                 " | " ^ s_oround (["P" ^ string_of_int i], "ok:" ^ s_cfg c)) idx)) in
+      (* the verdict: the specification on the implementation's observation *)
+      let defs evs = List.filter_map (function ODef n -> Some n | _ -> None) evs in
+      let ctors evs = List.filter_map (function OCtor (i, c) -> Some (i, c) | _ -> None) evs in
+      let prods evs = List.filter_map (function OProd m -> Some m | _ -> None) evs in
+      let quiet evs = ctors evs = [] && prods evs = [] in
+      let base evs = (match defs evs with [n] when has_def -> Some (dflt n) | [] when not has_def -> Some (dflt 0) | _ -> None) in
+      (* a round that makes a config and hands it to the constructor: the config is the round's default overlaid by the settings *)
+      let made evs = (match base evs, ctors evs with
+                      | Some b, [(i, c)] when cfg_agrees_b b sec (p_cfg c) -> Some (i, c)
+                      | _ -> None) in
+      let distinct l = List.length (List.sort_uniq compare l) = List.length l in
+      let fresh rounds = let evs = List.concat rounds in distinct (defs evs) && distinct (List.map fst (ctors evs)) && distinct (prods evs) in
+      let product_round (evs, out) =
+        (match made evs, out with
+         | Some (_, c), OutOk c' -> c' = c && List.length (prods evs) = (if ret = "F" then 1 else 0)
+         | _ -> false) in
+      let why = if accepted then "product not built from the registered default overlaid by the section's settings (maps key by key, nested structs field by field, absent / nil keys leave the default)"
+                else "settings with a key that names no field of the config (also inside a nested struct) or a value of the wrong kind did not reach the caller as the error result with nothing constructed" in
+      let v =
+        (match p_oobs obs with
+         | (false, None, rounds) when req = "N" ->
+             verdict (List.length rounds = kk &&
+                      (if accepted then List.for_all product_round rounds && fresh (List.map fst rounds)
+                       else List.for_all (fun (evs, out) -> quiet evs && out = OutErr) rounds)) why
+         | (true, Some (cev, cout), rounds) when req <> "N" ->
+             verdict
+               (if accepted then
+                  cout = OutFac && List.length rounds = kk &&
+                  (if ret = "P" then quiet cev && List.for_all product_round rounds && fresh (cev :: List.map fst rounds)
+                   else (match made cev with
+                         | Some (_, c) -> prods cev = [] &&
+                                          List.for_all (fun (evs, out) -> (match evs with [OProd _] -> true | _ -> false) && out = OutOk c) rounds &&
+                                          fresh (List.map fst rounds)
+                         | None -> false))
+                else
+                  quiet cev &&
+                  (match cout with
+                   | OutErr -> rounds = []
+                   | OutFac -> ret = "P" && kk > 0 && List.length rounds = kk &&
+                               List.for_all (fun (evs, out) -> quiet evs && out = (if req = "F0" then OutPanic else OutErr)) rounds
+                   | _ -> false)) why
+         | _ -> "BAD:unexpected-form"
+         | exception Unparsable what -> "BAD:outside-the-model(" ^ what ^ ")") in
+      (pred, v, true)
+  | _ -> ("unknown-case", "BAD:unknown-case", false)
+
+(* ---------- nm cases: registered names are byte strings, found exactly ---------- *)
+let predict_nm (f : string list) (obs : string) : string * string * bool =
+  match f with
+  | ["nm"; _via; req; names; want] ->
+      let l = List.mapi (fun i h -> (bytes_of_hex h, nat_of_int i)) (String.split_on_char ',' names) in
+      let v = bytes_of_hex want in
+      (match nregister_all [] l with
+       | None -> ("unknown-case", "BAD:unknown-case", false)
+       | Some r ->
+           let res = create_named r v in
+           let pred = (match res, req with
+                       | NReaches e, "N" -> "new | . => ok:" ^ s_nat e
+                       | NReaches e, _ -> "fac . => ok | . => ok:" ^ s_nat e
+                       | _, "N" -> "new | . => err"
+                       | _, _ -> "fac . => err") in
+           let none = (if v = [] then NEmpty else NUnknown) in
+           let of_out = function
+             | OutOk e -> (match int_of_string_opt e with Some i when i >= 0 -> Some (NReaches (nat_of_int i)) | _ -> None)
+             | OutErr -> Some none
+             | _ -> None in
+           let seen = (match p_oobs obs with
+                       | (false, None, [([], out)]) when req = "N" -> of_out out
+                       | (true, Some ([], OutErr), []) when req <> "N" -> Some none
+                       | (true, Some ([], OutFac), [([], out)]) when req <> "N" -> (match out with OutOk _ -> of_out out | _ -> None)
+                       | _ -> None
+                       | exception Unparsable _ -> None) in
+           let why = (match res with
+                      | NReaches _ -> "the name did not reach the constructor registered under exactly this name"
+                      | _ -> "a name that is not registered (as spelt) did not yield the error result") in
+           (pred, (match seen with Some x -> verdict (named_spec_b l v x) why | None -> "BAD:" ^ why), true))
+  | _ -> ("unknown-case", "BAD:unknown-case", false)
+
 (* ftype cases: which Go types are requested factory forms *)
 let gotype_of = function
   | "f0" | "g0" -> Some { gt_func = true; gt_in = O; gt_outs = [TyIface O] }
@@ -689,6 +902,8 @@ let predict (c : string) (obs : string) : string * string * bool =
   if String.length c > 4 && String.sub c 0 4 = "reg " then predict_reg (split_blank c) obs else
   if String.length c > 6 && String.sub c 0 6 = "ftype " then predict_ftype (split_blank c) obs else
   if String.length c > 4 && String.sub c 0 4 = "set " then predict_set (split_blank c) obs else
+  if String.length c > 4 && String.sub c 0 4 = "ovl " then predict_ovl (split_blank c) obs else
+  if String.length c > 3 && String.sub c 0 3 = "nm " then predict_nm (split_blank c) obs else
   predict_plain c obs
 
 let () = run_cases predict
